@@ -65,6 +65,8 @@ def _solve_group(args):
       if (ob.meta.get("instantiate") or ob.kind == "loop-invariant") and ob.expect != "refutable":
         # quantified invariants: goal-directed instantiation first (a proof if it succeeds)
         ri = smt.instantiate_and_check(smt.cone_of_influence(ob.assumptions, ob.goal), ob.goal, timeout_ms=ob.meta.get("timeout_ms", timeout), seed=seed)
+        if ri["status"] != "unsat":
+          ri = smt.instantiate_and_check(smt.cone_of_influence(ob.assumptions, ob.goal), ob.goal, timeout_ms=ob.meta.get("timeout_ms", timeout), seed=seed, small_first=True, max_inst=8000)
         if ri["status"] == "unsat":
           r = ri
       if r is None and ob.meta.get("keep_syms") and ob.expect != "refutable":
@@ -98,7 +100,7 @@ def _solve_group(args):
             r = r1
             r["note"] = "counter-model satisfies the integer part of the path condition; floating-point feasibility of that path was not established by the solver"
       if r is None:
-        r = smt.check(ob.assumptions, ob.goal, timeout_ms=ob.meta.get("timeout_ms", timeout), seed=seed, cone=(ob.expect != "refutable"))
+        r = smt.check(ob.assumptions, ob.goal, timeout_ms=ob.meta.get("timeout_ms", timeout), seed=seed, cone=(ob.expect != "refutable"), sat_first=(ob.expect == "refutable"))
     except Exception:
       out.append(Result(oid=ob.oid, status="crash", reason=traceback.format_exc()[-2000:], group=gname))
       continue
@@ -113,7 +115,7 @@ def _solve_group(args):
           r = r2
           r["backend"] = str(r.get("backend")) + " (guided counter-model search)"
           break
-    res = Result(oid=ob.oid, group=gname, func=ob.func, kind=ob.kind, backend=r.get("backend"), time_s=round(time.time() - t1, 4), meta=ob.meta)
+    res = Result(oid=ob.oid, group=gname, func=ob.func, kind=ob.kind, backend=r.get("backend"), time_s=round(time.time() - t1, 4), solver_s=round(float(r.get("time_s") or 0.0), 4), meta=ob.meta)
     st = r["status"]
     if ob.expect == "refutable":
       # vacuity canary: the assumptions must be satisfiable (goal False must NOT be provable)
@@ -137,12 +139,50 @@ def _solve_group(args):
           res["replay"] = replay(r.get("_model_obj"), ob)
         except Exception:
           res["replay"] = {"reproduced": None, "error": traceback.format_exc()[-1500:]}
+      elif getattr(mod, "native_replay", None) is not None and not _matches_known(modname.split(".")[-1], ob.oid):
+        # replay of the counter-model against the real code: the property module turns the model into a
+        # command that drives the public API of the tree under verification (scenarios/replay_native.py)
+        try:
+          cmd = mod.native_replay(ob.oid, res["model"])
+          if cmd:
+            res["replay"] = _native(cmd)
+        except Exception:
+          res["replay"] = {"reproduced": None, "error": traceback.format_exc()[-1500:]}
     else:
       res["status"] = "undecided"
       res["reason"] = "solver: " + str(r.get("reason", "unknown"))
     res["meta"] = {k: v for k, v in ob.meta.items() if k not in ("replay", "sat_hints") and isinstance(v, (str, int, float, list, dict, bool))}
     out.append(res)
   return out
+
+
+_NATIVE_CACHE = {}
+
+
+def _native(cmd):
+  """run a native replay command once per worker process and command"""
+  from wpv import replay as rp
+
+  key = tuple(cmd)
+  if key not in _NATIVE_CACHE:
+    rc, out = rp.run_native(cmd)
+    _NATIVE_CACHE[key] = {
+      "native_cmd": list(cmd),
+      "exit": rc,
+      "reproduced": rc == 1,
+      "meaning": "exit 1: the real code violates the property on the input synthesised from the counter-model; 0: it does not on that input; 2/None: input not synthesised",
+      "output": out[-3000:],
+    }
+  return _NATIVE_CACHE[key]
+
+
+def _matches_known(pid, oid):
+  for k in load_known():
+    if k.get("property") == pid and k.get("status") == "known":
+      for pat in ([k["obligation"]] if "obligation" in k else []) + list(k.get("obligations", [])):
+        if fnmatch.fnmatchcase(oid, pat):
+          return True
+  return False
 
 
 _SCOPE = {}
@@ -169,22 +209,20 @@ def load_known():
     return json.load(f)
 
 
-def run_property(pid, tier="quick", seed=0, jobs=None):
-  t0 = time.time()
+def collect_results(pid, tier="quick", seed=0, jobs=None, only_groups=None):
+  """generate and discharge the obligations of one property (all groups, or the named ones)"""
   modname = f"props.{pid}"
   sys.path.insert(0, HERE)
-  try:
-    mod = importlib.import_module(modname)
-    groups = mod.groups(tier)
-  except Exception:
-    print(f"CHECKER-CRASH property={pid}\n{traceback.format_exc()}")
-    return 3
+  mod = importlib.import_module(modname)
+  groups = mod.groups(tier)
+  if only_groups is not None:
+    groups = [g for g in groups if g[0] in only_groups]
   tasks = [(modname, g[0], tier, seed) for g in groups]
   jobs = jobs or min(16, max(1, len(tasks)))
   if getattr(mod, "INPROCESS", False):
     jobs = 1  # the module runs its own worker pool (kernel summaries shared between its groups)
   results = []
-  if jobs == 1 or len(tasks) == 1:
+  if jobs == 1 or len(tasks) <= 1:
     for t in tasks:
       results.extend(_solve_group(t))
   else:
@@ -192,6 +230,16 @@ def run_property(pid, tier="quick", seed=0, jobs=None):
     with ctx.Pool(jobs) as pool:
       for rs in pool.imap_unordered(_solve_group, tasks, chunksize=1):
         results.extend(rs)
+  return mod, results
+
+
+def run_property(pid, tier="quick", seed=0, jobs=None):
+  t0 = time.time()
+  try:
+    mod, results = collect_results(pid, tier, seed, jobs)
+  except Exception:
+    print(f"CHECKER-CRASH property={pid}\n{traceback.format_exc()}")
+    return 3
   results.sort(key=lambda r: r["oid"])
   known = [k for k in load_known() if k.get("property") == pid]
   known_pats = [(pat, k) for k in known if k.get("status") == "known" for pat in ([k["obligation"]] if "obligation" in k else []) + list(k.get("obligations", []))]
@@ -247,6 +295,9 @@ def run_property(pid, tier="quick", seed=0, jobs=None):
         {
           "property": pid,
           "failed_obligation": r["oid"],
+          "group": r.get("group"),
+          "tier": tier,
+          "seed": int(seed),
           "function": r.get("func"),
           "goal": (r.get("meta") or {}).get("goal"),
           "verifier_output": {"status": "sat (counter-model to the verification condition)", "backend": r.get("backend"), "model": r.get("model")},
@@ -292,6 +343,10 @@ def run_property(pid, tier="quick", seed=0, jobs=None):
       "functions_under_contract": funcs,
       "backends": backends,
       "solver_time_s": round(sum(r.get("time_s", 0) or 0 for r in results), 3),
+      "slowest_obligations": [
+        {"obligation": r["oid"], "time_s": r.get("time_s"), "last_solver_call_s": r.get("solver_s"), "backend": r.get("backend"), "budget_per_solver_call_s": ((r.get("meta") or {}).get("timeout_ms") or (10000 if tier == "quick" else 120000)) / 1000.0}
+        for r in sorted(results, key=lambda r: -(r.get("time_s") or 0))[:5]
+      ],
       "obligations_by_kind": _count(results, "kind"),
       "known_finding_obligations": [r["oid"] for r in knownhit],
       "bounded_standins": [{"oid": r["oid"], "bound": r.get("bound"), "cases": r.get("cases")} for r in bounded],
